@@ -122,7 +122,7 @@ func c9OpID(ctx frugal.FContext) string {
 }
 
 func c9CliOut(ctx frugal.FContext) string {
-	return fmt.Sprintf("req=%s cid=%s timeout=%d opid=%s", pairs(ctx.RequestHeaders()), hx([]byte(ctx.CorrelationID())), int64(ctx.Timeout()), c9OpID(ctx))
+	return fmt.Sprintf("ok req=%s cid=%s timeout=%d opid=%s", pairs(ctx.RequestHeaders()), hx([]byte(ctx.CorrelationID())), int64(ctx.Timeout()), c9OpID(ctx))
 }
 
 // c9Srv runs ReadRequestHeader over the bytes. lineCtr is the counter value the driver line
@@ -214,7 +214,7 @@ func c9Tmo(v *string) string {
 	if o := guard(5*time.Second, func() { d = ctx.Timeout() }); o != "" {
 		return o
 	}
-	return strconv.FormatInt(int64(d), 10)
+	return "ok " + strconv.FormatInt(int64(d), 10)
 }
 
 func c9Fail(what string, line string, extra map[string]interface{}) {
@@ -431,7 +431,7 @@ func c9Call(r *Rng) {
 		sctx.AddResponseHeader(k, R[k])
 	}
 	SP := sctx.ResponseHeaders()
-	Case("c9hdl "+pairs(resp0)+" "+pairs(R), pairs(SP))
+	Case("c9hdl "+pairs(resp0)+" "+pairs(R), "ok "+pairs(SP))
 	p2 := genPayload(r)
 	hdr2, wire2, o := c9Write(fac.f, sctx, false, p2)
 	if o != "" {
@@ -623,11 +623,11 @@ func c9TimeoutCase(r *Rng) {
 	// property: a value without any decimal digit (or a missing header) is the default 5 s;
 	// the decimal rendering of ms (ms·10^6 within int64) decodes to ms
 	hasDigit := strings.ContainsAny(s, "0123456789")
-	if (v == nil || !hasDigit) && out != "5000000000" {
+	if (v == nil || !hasDigit) && out != "ok 5000000000" {
 		c9Fail("missing / non-numeric _timeout does not give the default timeout", line, map[string]interface{}{"got": out})
 	}
 	if n, e := strconv.ParseInt(s, 10, 64); v != nil && e == nil && strconv.FormatInt(n, 10) == s && n > -9000000000000 && n < 9000000000000 {
-		if out != strconv.FormatInt(n*1000000, 10) {
+		if out != "ok "+strconv.FormatInt(n*1000000, 10) {
 			c9Fail("decimal _timeout does not decode to its value in milliseconds", line, map[string]interface{}{"got": out})
 		}
 	}
@@ -636,8 +636,10 @@ func c9TimeoutCase(r *Rng) {
 func runC09(r *Rng, n int) {
 	for i := 0; i < n; i++ {
 		switch k := r.Intn(10); {
-		case k < 7:
+		case k < 6:
 			c9Call(r)
+		case k < 7:
+			c9E2E(r)
 		case k < 9:
 			c9Odd(r)
 		default:
@@ -744,7 +746,7 @@ func init() {
 		for k, v := range R {
 			ok = ok && got[k] == v
 		}
-		return pairs(got), ok
+		return "ok " + pairs(got), ok
 	}
 	lineOps["c9rsp"] = func(args []string) (string, bool) {
 		if len(args) != 2 {
@@ -804,13 +806,13 @@ func init() {
 		}
 		if args[0] == "none" {
 			o := c9Tmo(nil)
-			return o, o == "5000000000"
+			return o, o == "ok 5000000000"
 		}
 		s := string(unhx(args[0]))
 		o := c9Tmo(&s)
 		ok := !bad(o)
 		if !strings.ContainsAny(s, "0123456789") {
-			ok = o == "5000000000"
+			ok = o == "ok 5000000000"
 		}
 		return o, ok
 	}
